@@ -49,7 +49,9 @@ class C08(ProgramProperty):
             base = base.strip('\n')
         for f in r.feats:
             ctx.count('layout_' + f)
-        return {'base': base, 'variant': r.text, 'mode': mode, 'feats': sorted(r.feats)}
+        # the variant is parsed through the start-offset entry point half of the time: layout handling (BOM, line joins,
+        # indentation) must not depend on where the text is said to start
+        return {'base': base, 'variant': r.text, 'mode': mode, 'feats': sorted(r.feats), 'k': cs.pick([0, 0, 0, 1, 7, 400, 1 << 31])}
 
     def nontrivial(self, case, ctx):
         return case['base'] != case['variant'] and bool(re.search(r':\s*\n|[\[({]', case['base']))
@@ -60,7 +62,7 @@ class C08(ProgramProperty):
     def check(self, case, ctx):
         sut = ctx.sut('A')
         a = sut.call('parse', src=case['base'], mode=case['mode'])
-        b = sut.call('parse', src=case['variant'], mode=case['mode'])
+        b = sut.call('parse', src=case['variant'], mode=case['mode'], k=case.get('k', 0))
         for name, r in (('base', a), ('variant', b)):
             if 'ok' not in r and 'err' not in r:
                 return Failure('panic_or_crash', which=name, case=_c(case), reply=str(r)[:300])
@@ -94,7 +96,7 @@ class C08(ProgramProperty):
 
 
 def _c(case):
-    return {'base': case['base'], 'variant': case['variant'], 'mode': case['mode']}
+    return {'base': case['base'], 'variant': case['variant'], 'mode': case['mode'], 'k': case.get('k', 0)}
 
 
 PROP = C08()
